@@ -252,6 +252,48 @@ func HarnessC19DelayOnError() {
 	vrt.Assert(got >= want-1 && got <= want+1, "the k-th consecutive failure is delayed by min(previous x Multiplier, MaxInterval), fractional multipliers included")
 }
 
+// HarnessC19DelayOnErrorSeq: the whole schedule over consecutive failures of one message (the middleware reads its
+// own previous stamp back from the metadata): k-th failure = min(InitialInterval x Multiplier^(k-1), MaxInterval),
+// for configurations whose products leave the whole-millisecond grid.
+func HarnessC19DelayOnErrorSeq() {
+	type cfg struct {
+		initial time.Duration
+		mult    float64
+		num     int64 // mult = 1 + 1/num (num == 0: integer multiplier in whole)
+		whole   int64
+	}
+	cfgs := []cfg{
+		{100 * time.Millisecond, 1.5, 2, 0},
+		{time.Second, 1.25, 4, 0},
+		{1500 * time.Microsecond, 2, 0, 2},
+		{7 * time.Second, 3, 0, 3},
+	}
+	c := cfgs[vrt.Int("config", 0, 3)]
+	maxI := time.Hour
+	d := &DelayOnError{InitialInterval: c.initial, MaxInterval: maxI, Multiplier: c.mult}
+	msg := message.NewMessage("m", nil)
+	n := vrt.Int("failures", 1, 6)
+	mw := d.Middleware(func(m *message.Message) ([]*message.Message, error) { return nil, errScripted })
+	want := c.initial
+	for k := 1; k <= n; k++ {
+		_, err := mw(msg)
+		vrt.Assert(err == errScripted, "the error passes through")
+		got, perr := time.ParseDuration(msg.Metadata.Get(delay.DelayedForKey))
+		vrt.Assert(perr == nil, "a delay is stamped on failure")
+		if k > 1 {
+			if c.num != 0 {
+				want = want + want/time.Duration(c.num)
+			} else {
+				want = want * time.Duration(c.whole)
+			}
+			if want > maxI {
+				want = maxI
+			}
+		}
+		vrt.Assert(got >= want-time.Duration(k) && got <= want+time.Duration(k), "the k-th consecutive failure is delayed by min(InitialInterval x Multiplier^(k-1), MaxInterval)")
+	}
+}
+
 // HarnessC19Throttle: handler starts never outnumber the ticks the ticker delivered.
 func HarnessC19Throttle() {
 	models.TickerTicks = 2
